@@ -21,6 +21,14 @@ def gen_cases(ctx, n):
              'init': r.choice([1.0, 0.5, 2.0, 1.1, 0.3, 7.25, r.uniform(0.1, 5)]),
              'gamma': r.choice([0.99, 0.5, 0.1, 1.0, 1.5, 0.9, r.uniform(0.2, 1.3)]),
              'step_size': r.choice([1, 2, 3, 5, 7]), 'lam': r.choice([0, 1, 2]), 'ops': ops}
+        if kind == 'lambda' and c['lam'] == 2:
+            # schedule 1 - k/10 is a legal (positive) noise multiplier / clipping norm for k <= 9 only: keep at most 9 scheduler steps
+            seen = 0
+            for j, o in enumerate(ops):
+                if o == 'S':
+                    seen += 1
+                    if seen > 9:
+                        ops[j] = 'O'
         cases.append(c)
     return cases
 
